@@ -3,8 +3,8 @@
 # separate processes at 1, 4 and 16 workers (twice at 16); all outputs must be identical.
 set -u
 N=${VERIF_DET_N:-300}
-BIN=/verif/sim/target/release/sim
-D=$(mktemp -d /verif/out/det.XXXXXX)
+ROOT=${VERIF_ROOT:-/verif}; BIN=$ROOT/sim/target/release/sim
+D=$(mktemp -d $ROOT/out/det.XXXXXX)
 t0=$(date +%s)
 VERIF_WORKERS=16 $BIN determinism $N > $D/a.txt &
 VERIF_WORKERS=4 $BIN determinism $N > $D/b.txt &
@@ -26,13 +26,13 @@ bad=[l for l in open(d+'/d.txt') if a.get(tuple(l.split()[:2]))!=l]
 sys.exit(1 if bad else 0)
 PY
 errors=$(grep -c ERROR $D/a.txt)
-mkdir -p /verif/evidence
-cat > /verif/evidence/determinism.json <<JSON
+mkdir -p $ROOT/evidence
+cat > $ROOT/evidence/determinism.json <<JSON
 {"runs_compared": $runs, "executions_per_run": 3, "worker_counts": [16, 4, 16, 1], "separate_processes": 4,
  "identical": $ok, "harness_errors": $errors, "seed": ${VERIF_SEED:-1}, "wall_s": $((t1-t0)),
  "what_is_compared": "sha256 of the canonical JSON of every history record, number of violations, number of logged decisions"}
 JSON
-cat /verif/evidence/determinism.json
+cat $ROOT/evidence/determinism.json
 rm -rf "$D"
 $ok && [ "$errors" = 0 ] && exit 0
 echo "DETERMINISM FAILURE"; exit 2
